@@ -11,6 +11,7 @@ import (
 	logging "github.com/ipfs/go-log/v2"
 	"github.com/ipni/go-libipni/apierror"
 	"github.com/ipni/go-libipni/find/model"
+	"github.com/ipni/go-libipni/verifhook"
 	"github.com/libp2p/go-libp2p/core/peer"
 )
 
@@ -344,6 +345,7 @@ func (pc *ProviderCache) Refresh(ctx context.Context) error {
 	// If the update map is small relative to the main map, do not generate a
 	// new main map yet.
 	if !needMerge(len(updates), len(read.m)) {
+		verifhook.Point("pcache.publish", 1)
 		pc.read.Store(&readOnly{m: read.m, u: updates})
 		return nil
 	}
@@ -359,6 +361,7 @@ func (pc *ProviderCache) Refresh(ctx context.Context) error {
 	}
 
 	// Replace old readOnly map with new.
+	verifhook.Point("pcache.publish", 2)
 	pc.read.Store(&readOnly{m: m})
 	return nil
 }
@@ -488,6 +491,7 @@ func (pc *ProviderCache) fetchMissing(ctx context.Context, pid peer.ID) (*readPr
 	// If the update map is small relative to the main map, do not generate a
 	// new main map yet.
 	if !needMerge(len(updates), len(read.m)) {
+		verifhook.Point("pcache.publish", 3)
 		pc.read.Store(&readOnly{m: read.m, u: updates})
 		return rpinfo, nil
 	}
@@ -503,6 +507,7 @@ func (pc *ProviderCache) fetchMissing(ctx context.Context, pid peer.ID) (*readPr
 	}
 
 	// Replace old readOnly map with new.
+	verifhook.Point("pcache.publish", 4)
 	pc.read.Store(&readOnly{m: m})
 
 	return rpinfo, nil
